@@ -234,12 +234,22 @@ func c05Insp(c *Ctx, tag, name string, data []byte, ref Sx, inScope bool) file.I
 	if ref == nil {
 		ref = SL{}
 	}
-	c.Emit("insp:"+tag, SL{S(p), SB(data), rowsO, os_, blocks, ref, Bool(inScope)}, obs)
+	// the case names the file relative to the scratch directory, so that it replays in another one
+	c.Emit("insp:"+tag, SL{S(c05Rel(c, p)), SB(data), rowsO, os_, blocks, ref, Bool(inScope)}, obs)
 	return info
+}
+
+func c05Rel(c *Ctx, p string) string {
+	rel, err := filepath.Rel(c.Tmp, p)
+	if err != nil {
+		return p
+	}
+	return rel
 }
 
 func runCLIStdin(c *Ctx, stdin []byte, args ...string) ([]byte, int) {
 	cmd := exec.Command(c.Bin, args...)
+	cmd.Dir = c.Tmp
 	cmd.Stdin = bytes.NewReader(stdin)
 	var so bytes.Buffer
 	cmd.Stdout = &so
@@ -259,10 +269,11 @@ func c05CLI(c *Ctx, tag, name string, data []byte) {
 	p := c05WriteFile(c, name, data)
 	defer c05RemoveFile(c, p)
 	_, info := c05InspectFile(p)
-	o1, c1 := runCLI(c, p)
+	rel := c05Rel(c, p) // the CLI runs in the scratch directory and is given the relative path
+	o1, c1 := runCLIStdin(c, nil, rel)
 	o2, c2 := runCLIStdin(c, data, "-")
 	o3, c3 := runCLIStdin(c, data)
-	c.Emit("cli:"+tag, SL{S(p), SB(data), InfoSx(info)}, SL{SB(o1), I(c1), SB(o2), I(c2), SB(o3), I(c3)})
+	c.Emit("cli:"+tag, SL{S(rel), SB(data), InfoSx(info)}, SL{SB(o1), I(c1), SB(o2), I(c2), SB(o3), I(c3)})
 }
 
 // ---------- object construction (deterministic from c.R; no library key generation) ----------
